@@ -179,7 +179,8 @@ def obligations(tier, seed):
                 obs.append(Ob("typing generic %s over %s and its reverse complement n=%d" % (role, e, F + s), ob_typing,
                               dict(role=role, enzyme=e, n=F + s), samples=4, cost=(F + s) ** 3,
                               expect_witness=("accepted", "rejected")))
-        if Geometry(getattr(__import__("Bio.Restriction", fromlist=[e]), e)).ovl >= 2:
+        _g = Geometry(getattr(__import__("Bio.Restriction", fromlist=[e]), e))
+        if _g.ovl >= 2 and all(ch in "ACGT" for ch in _g.site):  # (the template plasmids spell the site out literally)
             # (three pairwise distinct, pairwise non-complementary 1-nt cohesive ends do not exist)
             obs.append(Ob("end-to-end %s chain=2 vs reverse complements" % e, ob_e2e, dict(enzyme=e), samples=3, cost=3000))
     for m in range(1, tier_pick(tier, 3, 4) + 1):
